@@ -159,6 +159,8 @@ def same_value(a, b):
         return a is None and b is None
     va = np.asarray(a.to_numpy() if hasattr(a, "to_numpy") else a, dtype=float)
     vb = np.asarray(b.to_numpy() if hasattr(b, "to_numpy") else b, dtype=float)
+    if va.size == 0 or vb.size == 0:
+        return va.shape == vb.shape
     va, vb = va.reshape(len(va), -1), vb.reshape(len(vb), -1)
     return va.shape == vb.shape and bool(np.all((np.abs(va - vb) <= 1e-9 * (1 + np.abs(va))) | (va == vb)))
 
